@@ -110,7 +110,7 @@ def run_native(crate, env_cfg, tests=("u6x",), threads=3, timeout=900, tag="nati
     p = subprocess.run(cmd, cwd=crate, env=env, capture_output=True, text=True)
     raw = p.stdout + "\n" + p.stderr
     ops, cex = {}, {}
-    for m in re.finditer(r'U6X op=(\S+) n<=(\d+) s<=(\d+) kinds=(\d+) static=(\d) worlds=(\d+) ran=(\d+) secs=([\d.]+) fails\[(.*?)\]$',
+    for m in re.finditer(r'U6X op=(\S+) n<=(\d+) s<=(\d+) kinds=(\S+) static=(\d) worlds=(\d+) ran=(\d+) secs=([\d.]+) fails\[(.*?)\]$',
                          raw, re.M):
         fails = dict((kv.split('=')[0], int(kv.split('=')[1])) for kv in m.group(9).split() if '=' in kv)
         ops[m.group(1)] = dict(worlds=int(m.group(6)), ran=int(m.group(7)), fails=fails, secs=float(m.group(8)),
@@ -122,15 +122,37 @@ def run_native(crate, env_cfg, tests=("u6x",), threads=3, timeout=900, tag="nati
                     % (",".join("%s" % v for v in env_cfg.values()), " ".join(tests)[:80], threads))
 
 
-def run_native_scenario(crate, valgrind=False):
+SCENARIOS = {  # native test -> (line tag, obligation id, function, text)
+    'pop_during_mark_native': ("U6-NATIVE", "C06.gc.scenario.pop_during_mark.native",
+                               "start_mark_phase/process_gray/sweep + arm ArrayPop",
+                               "test vm::u6::native::pop_during_mark_native: the Kani scenario compiled natively; "
+                               "sweep must not deallocate the object value_stack[1] points to"),
+    'chan_write_during_mark_native': ("U6-NATIVE-CHAN", "C06.gc.scenario.channel_write_during_mark.native",
+                                      "start_mark_phase/process_gray/sweep + arms ConstructChannel ArrayPop ChannelWrite ChannelRead",
+                                      "test vm::u6::native::chan_write_during_mark_native: array [Some(41)] and a channel on the stack; start_mark_phase; "
+                                      "process_gray(1) scans exactly the channel (black); ArrayPop; ChannelWrite (queue holds the only reference); "
+                                      "marking finished, sweep to Idle; the queued object must still be in heap_list and ChannelRead returns 41"),
+    'chan_alias_write_during_mark_native': ("U6-NATIVE-ALIAS", "C06.gc.scenario.channel_alias_write_during_mark.native",
+                                            "arm ChannelWrite (barrier keyed on the channel object, queue shared with a black copy)",
+                                            "test vm::u6::native::chan_alias_write_during_mark_native: c2 = copy of channel c made by the real "
+                                            "ChannelWrite+ChannelRead (same queue); c2 scanned (black); c and Some(41) popped off a grey array; "
+                                            "c.write(Some(41)); marking finished, sweep; the queued object must still be in heap_list"),
+}
+
+
+def run_native_scenario(crate):
+    """All native scenario tests; returns {test: dict(still, line)}."""
     env = dict(os.environ)
     env["CARGO_NET_OFFLINE"] = "true"
     env["CARGO_TARGET_DIR"] = os.path.join(crate, "target-native")
-    p = subprocess.run(["timeout", "600", "cargo", "test", "--release", "--offline", "--lib", "pop_during_mark_native", "--",
+    p = subprocess.run(["timeout", "600", "cargo", "test", "--release", "--offline", "--lib", "--", "u6::native",
                         "--nocapture", "--test-threads=1"], cwd=crate, env=env, capture_output=True, text=True)
     raw = p.stdout + p.stderr
-    m = re.search(r'U6-NATIVE still_in_heap_list=(\w+) payload=(\S+)', raw)
-    return dict(still=(m.group(1) == 'true') if m else None, line=m.group(0) if m else "", raw=raw[-1500:])
+    out = {}
+    for test, (tag, _, _, _) in SCENARIOS.items():
+        m = re.search(re.escape(tag) + r' still_in_heap_list=(\w+) payload=(\S+)', raw)
+        out[test] = dict(still=(m.group(1) == 'true') if m else None, line=m.group(0) if m else "", raw=raw[-1200:])
+    return out
 
 
 # ------------------------------------------------------------------ Kani back end (one compile, many harnesses)
@@ -217,7 +239,7 @@ def run_kani_group(crate, harnesses, cbmc_args=(), harness_timeout=420, wall=240
     return res, dict(wall=time.time() - t0, killed=killed, cmd=" ".join(cmd[2:]).replace(crate, "$SCRATCH"))
 
 
-KANI_A_QUICK = ['scenario_pop_during_mark_h']
+KANI_A_QUICK = ['scenario_pop_during_mark_h', 'scenario_channel_write_during_mark_h']
 KANI_A_SLOW = ['arm_SetIndex_preserves_inv', 'sweep_one_at1', 'process_gray_one_array', 'process_gray_one_enum',
                'start_mark_phase_preserves_inv', 'sweep_one_at0', 'write_barrier_post',
                'arm_ArrayPop_preserves_inv', 'arm_ConstructVariant_preserves_inv']
@@ -229,6 +251,12 @@ KANI_OBS = {
         "concrete multi-step scenario on a fresh thread: [Some(41)] built with construct_variant/construct_array; start_mark_phase; "
         "lifted arm ArrayPop(Top, local 0); process_gray(usize::MAX) until not Marking; sweep(usize::MAX) twice. "
         "assert: the popped element (referenced by value_stack[1]) is still in heap_list and still carries 41.", None),
+    'scenario_channel_write_during_mark_h': ("C06.gc.scenario.channel_write_during_mark", ["C06"],
+        "start_mark_phase/process_gray/sweep + arms ConstructChannel ArrayPop ChannelWrite ChannelRead",
+        "concrete multi-step scenario, one thread: array [Some(41)] and a channel on the stack; start_mark_phase; process_gray(1) scans exactly the "
+        "channel (black); lifted arms ArrayPop then ChannelWrite: the queue holds the only reference; process_gray(usize::MAX) until not Marking; "
+        "sweep(usize::MAX) twice. assert: the queued object is still in heap_list and ChannelRead (deep copy) returns 41. "
+        "Arc/Mutex/VecDeque are the vmk shim.", None),
     'sweep_one_at1': ("C06.gc.sweep.step_at1.kani", ["C06", "C07"], "VmGreenThread::sweep",
         "world [Array(1), Enum], contents/colours/roots symbolic, Sweeping{index:1}; assume inv; sweep(1); assert inv, "
         "only an unmarked object may be freed, len - index strictly decreases or Idle with last_gc_heap_size == heap_size",
@@ -270,24 +298,41 @@ KANI_OBS = {
 
 # ------------------------------------------------------------------ run
 
-ALL_X = ["x_start_mark_phase", "x_process_gray", "x_sweep", "x_write_barrier", "x_api_push_str"] + ["x_arm_" + a for a in ARMS]
+CHAN_ARMS = ['ConstructChannel', 'ChannelWrite', 'ChannelRead']
+ALL_X = ["x_start_mark_phase", "x_process_gray", "x_sweep", "x_write_barrier", "x_api_push_str"] + [
+    "x_arm_" + a for a in ARMS if a not in CHAN_ARMS]
+CHAN_X = ("x_arm_ChannelWrite", "x_arm_ChannelRead", "x_arm_ConstructChannel", "x_process_gray", "x_sweep", "x_start_mark_phase",
+          "x_write_barrier")
+# set to False to keep the aliased-queue shape (whose ChannelWrite obligation FAILS on the tree with the
+# object-keyed barrier: genuine defect, see proposed_fix_channel_write_shade.patch) out of the quick tier
+ALIAS_SHAPE_IN_QUICK = True
 N2 = ("n2", dict(U6X_N=2, U6X_S=2, U6X_KINDS=5, U6X_STATIC=0, U6X_EXACT_N=0), 600,
       "every heap of <= 2 objects over kinds {Struct(2), Array(1), Enum, Array(2), String}, <= 2 fields each, stack <= 2", ("u6x",))
+CHAN = ("chan", dict(U6X_N=2, U6X_S=2, U6X_KINDSET="chan", U6X_STATIC=0, U6X_EXACT_N=0), 600,
+        "every heap of <= 2 objects over kinds {Channel with 0..2 queued values, Array(1), Enum, String, Struct(1)}, stack <= 2; one thread: "
+        "every queued pointer points into this thread's heap, every channel object has its own queue", ("u6x",))
+ALIAS = ("chanalias", dict(U6X_N=2, U6X_S=2, U6X_KINDSET="chanalias", U6X_STATIC=0, U6X_EXACT_N=0), 600,
+         "every heap of <= 2 objects over kinds {Channel with 0..2 queued values, second channel object sharing the queue of the first "
+         "(as made by ChannelObject::copy), Array(1), Enum}, stack <= 2; one thread", CHAN_X)
 
 
 def _native_cfgs(tier):
-    """(name, env, timeout, description of the shape, test filters).  Measured (3 threads): n2 25 s;
-    n3 ~25 min; n3gc ~5 min; n2all ~10 min."""
+    """(name, env, timeout, description of the shape, test filters).  Measured (3 threads): n2 25 s; chan 14 s;
+    chanalias 3 s; n3 ~25 min; n3gc ~5 min; n2all ~10 min; chanalias3 ~2 min."""
+    quick = [N2, CHAN] + ([ALIAS] if ALIAS_SHAPE_IN_QUICK else [])
     if tier == "thorough":
-        return [N2,
+        return quick + ([] if ALIAS_SHAPE_IN_QUICK else [ALIAS]) + [
                 ("n3", dict(U6X_N=3, U6X_S=2, U6X_KINDS=3, U6X_STATIC=0, U6X_EXACT_N=1), 7200,
                  "every heap of exactly 3 objects over kinds {Struct(2), Array(1), Enum}, stack <= 2", tuple(ALL_X)),
                 ("n3gc", dict(U6X_N=3, U6X_S=1, U6X_KINDS=3, U6X_STATIC=0, U6X_EXACT_N=1), 3600,
                  "every heap of exactly 3 objects over kinds {Struct(2), Array(1), Enum}, stack <= 1", ("x_maybe_gc",)),
                 ("n2all", dict(U6X_N=2, U6X_S=2, U6X_KINDS=8, U6X_STATIC=1, U6X_EXACT_N=0), 3600,
                  "every heap of <= 2 objects over all 8 kinds (Struct 0/1/2 fields, Array len 0/1/2, Enum, String) + one static string, stack <= 2",
-                 ("u6x",))]
-    return [N2]
+                 ("u6x",)),
+                ("chanalias3", dict(U6X_N=3, U6X_S=2, U6X_KINDSET="chanalias", U6X_STATIC=0, U6X_EXACT_N=0), 3600,
+                 "every heap of <= 3 objects over kinds {Channel(0..2 queued), aliasing channel, Array(1), Enum}, stack <= 2; one thread",
+                 ("x_arm_ChannelWrite", "x_arm_ChannelRead", "x_arm_ConstructChannel", "x_sweep", "x_start_mark_phase"))]
+    return quick
 
 
 def run(tier="quick"):
@@ -330,13 +375,13 @@ def run(tier="quick"):
                                     sha.get(h.replace('arm_', '').split('_')[0], sha.get('sweep', '')), bounded,
                                     "harness vm::u6::%s: %s" % (h, text)))
         # ---- native obligations
-        scen = natives['_scenario'][0]
-        obs.append(E.Obligation("C06.gc.scenario.pop_during_mark.native", ["C06"], UNIT,
-                                "start_mark_phase/process_gray/sweep + arm ArrayPop", "native (rustc) run of the real code",
-                                E.UNDECIDED if scen['still'] is None else (E.DISCHARGED if scen['still'] else E.FAILED),
-                                scen['line'] or scen['raw'][-400:], 0.0, V, sha['process_gray'], None,
-                                "test vm::u6::native::pop_during_mark_native: the Kani scenario compiled natively; "
-                                "sweep must not deallocate the object value_stack[1] points to"))
+        scen_all = natives['_scenario'][0]
+        for test, (tag, oid, fn, text) in SCENARIOS.items():
+            scen = scen_all[test]
+            obs.append(E.Obligation(oid, ["C06"], UNIT, fn, "native (rustc) run of the real code",
+                                    E.UNDECIDED if scen['still'] is None else (E.DISCHARGED if scen['still'] else E.FAILED),
+                                    scen['line'] or scen['raw'][-400:], 0.0, V,
+                                    sha['process_gray'] if 'chan' not in test else sha['ChannelWrite'], None, text))
         for name, (nr, what) in natives.items():
             if name == '_scenario':
                 continue
@@ -344,9 +389,16 @@ def run(tier="quick"):
                     "every collector state (every ordered grey subset, every sweep index), every stack_base, every valid register, " \
                     "budgets at every threshold of the object sizes; histories unbounded (inductive step)" % (
                         what, ", static string" if nr['ops'] and 'static=1' in list(nr['ops'].values())[0]['shape'] else "")
-            suffix = "" if name in ("n2",) else "." + name
+            suffix0 = "" if name in ("n2",) else "." + name
 
             def mk(oid, props, fn, ops_, cats, text, shakey):
+                suffix = suffix0
+                is_chan_arm = any(o in CHAN_ARMS for o in ops_)
+                if is_chan_arm:
+                    if not name.startswith("chan"):
+                        return  # channel instructions are checked on the channel shapes only
+                    if name == "chan":
+                        suffix = ""  # primary shape for the channel instructions
                 asked = dict((c[0], c[4]) for c in _native_cfgs(tier))[name]
                 if asked != ("u6x",):
                     ops_ = [o for o in ops_ if ("x_" + o) in asked or ("x_arm_" + o) in asked or ("x_api_" + o) in asked]
@@ -355,7 +407,7 @@ def run(tier="quick"):
                 ran = sum(nr['ops'].get(o, {}).get('ran', 0) for o in ops_)
                 missing = [o for o in ops_ if o not in nr['ops']]
                 bad = [(o, c, nr['ops'][o]['fails'][c]) for o in ops_ if o in nr['ops'] for c in cats if nr['ops'][o]['fails'].get(c)]
-                if ran == 0 and not missing and name not in ("n2",):
+                if ran == 0 and not missing and (name not in ("n2",) and not (is_chan_arm and name == "chan")):
                     return  # this secondary shape has no object kind the operation applies to
                 if missing or ran == 0:
                     st, detail = E.UNDECIDED, "native enumeration produced no result for %s (rc=%s)\n%s" % (missing or ops_, nr['rc'], nr['raw'][-600:])
@@ -398,7 +450,12 @@ def run(tier="quick"):
                    "assert inv(t), no panic, nothing removed from heap_list", a)
         info_out = dict(
             assumptions=vmk.ASSUMED + [
-                "U6: ChannelObject is excluded from every world (Rc/RefCell shim; channel queues hold values of other threads, see C09)",
+                "U6: channels are in scope within ONE thread only: every pointer in a queue points into the heap of the thread under test; "
+                "a queue shared with another thread (it then holds pointers into the writer's heap, which process_gray of the reader marks and "
+                "pushes on its own gray_stack) is property C09's known problem and is excluded",
+                "U6: both back ends use the vmk shim for Arc/Mutex/VecDeque (Rc / RefCell / Vec FIFO, single-threaded), not std's",
+                "U6: ChannelRead is run only on queue heads whose deep_copy terminates and stays inside this unit: acyclic below the value, and no array "
+                "while Value::deep_copy reads arrays through get_struct (C08 defect; detected from the source text: deepcopy_array_ok=%s)" % _deepcopy_array_ok(),
                 "U6: mutator arms run under their typing precondition (operand tags as the type checker guarantees; ArrayPop on a non-empty array)",
                 "U6/kani: kani::assume(inv(&t)) in every inductive harness; kani::assume(gc_debt, last_gc_heap_size <= usize::MAX/8) (pacing counters are never reset; overflow needs 2^61 bytes of allocation)",
                 "U6/kani: Vec::push replaced by push_nogrow (append without reallocation, capacity pre-reserved, exceeding it is reported as UNDECIDED) in the harnesses marked #[kani::stub]",
@@ -504,6 +561,30 @@ def replay(ob):
     if ob.id.startswith("C07.drop.shared"):
         ok, extra = replay_leak_cli()
         return (True if ok else None), extra
+    if "C06" in ob.props and ("Channel" in ob.id or "channel" in ob.id):
+        # the multi-step scenario on the real code, compiled natively from the current tree
+        sc = E.Scratch("u6r")
+        try:
+            build_crate(sc.path)
+            r = run_native_scenario(sc.path)
+            alias = "alias" in ob.id
+            s = r['chan_alias_write_during_mark_native' if alias else 'chan_write_during_mark_native']
+            extra = dict(
+                native_scenario=s['line'], test="vm::u6::native::" + ('chan_alias_write_during_mark_native' if alias else 'chan_write_during_mark_native'),
+                steps=("c = channel(); d = channel(); d.write(c); c2 = d.read()  [c2 shares c's queue]; arr = [Some(41), c]; stack [arr, c2]; "
+                       "start_mark_phase; process_gray(1) scans c2 only; arr.pop() twice; c.write(Some(41)); finish marking; sweep"
+                       if alias else
+                       "arr = [Some(41)]; c = channel(); stack [arr, c, c]; start_mark_phase; process_gray(1) scans the channel only; "
+                       "e = arr.pop(); c.write(e); process_gray(MAX) until Sweeping; sweep(MAX); is e still in heap_list?"),
+                why_not_cli=("the built-in pacing cannot produce this interleaving from an Abra program: gc_debt is never reset, so maybe_gc hands "
+                             "process_gray a budget larger than the heap and marking completes in the first increment; exactly one instruction runs "
+                             "between start_mark_phase and the end of marking, and the scenario needs at least two (array_pop, channel_write) after a "
+                             "partial increment.  An embedder or a future pacing change can produce it; the collector code itself allows any budget."))
+            if s['still'] is False:
+                return True, extra
+            return (False if s['still'] else None), extra
+        finally:
+            sc.cleanup()
     if "C06" in ob.props and ("process_gray" in ob.id or "maybe_gc" in ob.id or "scenario" in ob.id or "no_reachable" in ob.id):
         ok, extra = replay_gc_cli()
         if ok:
